@@ -6,8 +6,8 @@ C06, part C — COMPLETENESS of the AGE certificate for one-negative-term signom
   `PrimalSageCone._condsage_conic_form` over the conic form `A = [I; −I]`, `b = [−lo; hi]`, `K = ℝ₊^{2N}` exists exactly
   when the signomial is nonnegative on the box; hence the level-0 bound of a posynomial plus a constant over a box is its
   minimum (`box_bound_exact`).
-What is still outside: ℝⁿ (or an unbounded X) when the infimum is NOT attained, and domains other than boxes
-(`completeness_gap` states the remaining claim; it is audited per instance, not proved).
+The attainment hypothesis is REMOVED in part D (`Props/C06Full.lean`: `ordAge_complete`, `ordAge_exact`, by a limit over growing boxes);
+what is still outside are convex domains other than boxes and ℝⁿ.
 Helper lemmas: `Lemmas/AgeComplete.lean`.
 -/
 import SageoptModel.Lemmas.AgeComplete
@@ -314,10 +314,9 @@ example : CondAgeCert (fun (j : Fin 3) (_ : Fin 1) => (j : ℝ)) 1 {0, 2}
     rw [h1, h0, h1']
     nlinarith [sq_nonneg (Real.exp (x default) - 1 / 2), Real.exp_pos (x default)]
 
-/-- THE REMAINING GAP, stated in full: on all of ℝⁿ without the attainment hypothesis (and on convex sets other than
-    boxes) completeness is the strong-duality theorem of relative-entropy programming (Chandrasekaran–Shah 2016,
-    Murray–Chandrasekaran–Wierman 2019); it is not proved here.  What IS proved is that the claim can only fail through
-    non-attainment: if it fails for some data, the normalised function has no minimiser. -/
+/-- (superseded by `ordAge_complete` of part D, which proves completeness on ℝⁿ outright; kept because it isolates what the explicit
+    certificate needs) a failure of completeness could only come from non-attainment: if there were nonnegative data without a
+    certificate, the normalised function would have no minimiser -/
 theorem completeness_gap (α : ι → Fin N → ℝ) (i : ι) (S : Finset ι) (hi : i ∉ S) (c : ι → ℝ) (hc : ∀ j ∈ S, 0 ≤ c j)
     (hnn : ∀ x, 0 ≤ c i * Real.exp (dotp (α i) x) + ∑ j ∈ S, c j * Real.exp (dotp (α j) x))
     (hno : ¬ OrdAgeCert α i S c) :
